@@ -37,15 +37,22 @@ def _boot(ctx) -> None:
 def read(ctx, storage: str, kind: str, location: str, sid: str, content=None, reuse: bool = True):
     _boot(ctx)
     key = (storage, repr(content) if kind == 'inline' else None)
-    feed = ctx['feeds'].get(key) if reuse else None
-    if feed is None:
+    if not reuse:  # a feed and a producer of its own, gone afterwards
         feed = feeds.make_feed(kind, location, content)
-        ctx['feeds'][key] = feed
-    # one producer per feed and process, like Feed.load() which uses one for all the statements of a pipeline
+        reader = feed.producer(feed.sources, feed.features, **feed._readerkw)  # pylint: disable=protected-access
+        return feeds.norm(reader(feeds.statement(sid)).to_rows(), sid)
+    # one feed per storage (content) and one producer per feed and process, like Feed.load() which uses one for all the
+    # statements of a pipeline. Both are kept for the life of the process and looked up by the storage key - never by
+    # id(): with two interleaved readers one of two feeds made at the same time is dropped, and an id()-keyed table
+    # would hand its producer to whatever object is allocated at that address later (a false alarm this harness raised
+    # on itself once in six quick runs, see DESIGN.md 8.4)
+    if key not in ctx['feeds']:
+        ctx['feeds'].setdefault(key, feeds.make_feed(kind, location, content))
+    feed = ctx['feeds'][key]
     readers = ctx.setdefault('readers', {})
-    if not reuse or id(feed) not in readers:
-        readers[id(feed)] = feed.producer(feed.sources, feed.features, **feed._readerkw)  # pylint: disable=protected-access
-    data = readers[id(feed)](feeds.statement(sid))
+    if key not in readers:
+        readers.setdefault(key, feed.producer(feed.sources, feed.features, **feed._readerkw))  # pylint: disable=protected-access
+    data = readers[key](feeds.statement(sid))
     return feeds.norm(data.to_rows(), sid)
 
 
